@@ -1,6 +1,7 @@
 package main
 
 import (
+	"go/ast"
 	"encoding/json"
 	"flag"
 	"fmt"
@@ -64,6 +65,8 @@ func main() {
 		os.Exit(cmdCheck(os.Args[1] == "record", os.Args[2:]))
 	case "dump":
 		os.Exit(cmdDump(os.Args[2:]))
+	case "binds":
+		os.Exit(cmdBinds(os.Args[2:]))
 	}
 	fmt.Fprintln(os.Stderr, "unknown command")
 	os.Exit(2)
@@ -433,4 +436,95 @@ func sortedFuncNames(m map[string]*ssa.Function) []string {
 	}
 	sort.Strings(out)
 	return out
+}
+
+// cmdBinds prints, for every contract with loop invariants, the 'loop N binds x' lines that tie each ordinal to the
+// variable its source loop declares (contract file, contract line, function, ordinal, name).
+func cmdBinds(args []string) int {
+	fs := flag.NewFlagSet("binds", flag.ExitOnError)
+	pkgs := fs.String("pkgs", "", "comma separated packages")
+	fs.Parse(args)
+	w, err := loadWorld(repoRoot, strings.Split(*pkgs, ","), filepath.Join(verifRoot, "stubs"))
+	if err != nil {
+		fmt.Fprintln(os.Stderr, err)
+		return 2
+	}
+	idx := w.funcIndex()
+	var names []string
+	for n := range w.contracts {
+		names = append(names, n)
+	}
+	sort.Strings(names)
+	for _, n := range names {
+		c := w.contracts[n]
+		f := idx[n]
+		if f == nil || len(c.Loops) == 0 {
+			continue
+		}
+		var body *ast.BlockStmt
+		switch x := f.Syntax().(type) {
+		case *ast.FuncDecl:
+			body = x.Body
+		case *ast.FuncLit:
+			body = x.Body
+		}
+		if body == nil {
+			continue
+		}
+		var loops []ast.Node
+		ast.Inspect(body, func(n ast.Node) bool {
+			switch n.(type) {
+			case *ast.FuncLit:
+				return false
+			case *ast.ForStmt, *ast.RangeStmt:
+				loops = append(loops, n)
+			}
+			return true
+		})
+		var ords []int
+		for o := range c.Loops {
+			ords = append(ords, o)
+		}
+		sort.Ints(ords)
+		for _, o := range ords {
+			if _, ok := c.LoopBinds[o]; ok || o < 1 || o > len(loops) {
+				continue
+			}
+			name := ""
+			id := func(e ast.Expr) string {
+				if i, ok := e.(*ast.Ident); ok && i.Name != "_" {
+					return i.Name
+				}
+				return ""
+			}
+			switch x := loops[o-1].(type) {
+			case *ast.RangeStmt:
+				if x.Value != nil {
+					name = id(x.Value)
+				}
+				if name == "" && x.Key != nil {
+					name = id(x.Key)
+				}
+			case *ast.ForStmt:
+				if as, ok := x.Init.(*ast.AssignStmt); ok && len(as.Lhs) > 0 {
+					name = id(as.Lhs[0])
+				}
+			}
+			if name == "" {
+				fmt.Printf("# %s loop %d: no variable to bind\n", n, o)
+				continue
+			}
+			k := 1
+			for _, a := range loops[:o-1] {
+				if loopDeclares(a, name) {
+					k++
+				}
+			}
+			if k > 1 {
+				name = fmt.Sprintf("%s#%d", name, k)
+			}
+			fmt.Printf("%s\t%d\t%s\t%d\t%s\n", c.File, c.Line, n, o, name)
+		}
+	}
+	return 0
 }
